@@ -100,21 +100,24 @@ Definition slow (d : decimal) : f64 :=
     f_ldexp (of_uint64 w) (d_exp d - bits)
   else parse_float (pos_of (Z.of_N (d_mant d))) (d_e d).
 
-(* func (z *Decimal) Float64() (v float64, exact bool), finite z *)
-Definition float64_of (d : decimal) : f64 * bool :=
+(* func (z *Decimal) Float64() (v float64, exact bool), finite z: the switch statement *)
+Definition float64_abs (d : decimal) : f64 * bool :=
   let w := d_mant d in
-  let '(v, exact) :=
-    if (w =? 0)%N then (f_pzero, true)
-    else if (w <? 2 ^ 64)%N then                      (* bigx.IsUint64 *)
-      let v := of_uint64 w in
-      let exact := (w <=? max_mant64)%N in
-      let e := d_e d in
-      if e =? 0 then (v, exact)
-      else if exact then
-        let v1 := if d_bin d then v else pow5 v e in
-        (f_ldexp v1 e, exact)
-      else (slow d, exact)                            (* fallthrough *)
-    else (slow d, false) in
+  if (w =? 0)%N then (f_pzero, true)
+  else if (w <? 2 ^ 64)%N then                        (* bigx.IsUint64 *)
+    let v := of_uint64 w in
+    let exact := (w <=? max_mant64)%N in
+    let e := d_e d in
+    if e =? 0 then (v, exact)
+    else if exact then
+      let v1 := if d_bin d then v else pow5 v e in
+      (f_ldexp v1 e, exact)
+    else (slow d, exact)                              (* fallthrough *)
+  else (slow d, false).
+
+(* ... followed by: if z.Negative() { v = -v }; return v, exact && finite(v) *)
+Definition float64_of (d : decimal) : f64 * bool :=
+  let '(v, exact) := float64_abs d in
   ((if d_neg d then f_neg v else v), exact && is_finite v).
 
 End WithParseFloat.
